@@ -89,6 +89,9 @@ def gen_model(rng, n_inputs=4, n_formulas=6, sheets=('Sheet1',),
             if r < 0.7 and prior:
                 k = rng.choice(prior[-8:] if rng.random() < 0.6 else prior)
                 deps.add(k)
+                if rng.random() < 0.1:
+                    # a sign directly on the reference (=B1*-A1, =-A1+2)
+                    return ('neg', R(k, s))
                 return R(k, s)
             return lit(rng.choice([1, 2, 3, 0.5, 10]))
         shape = rng.random()
